@@ -247,6 +247,18 @@ func genFields(t *rapid.T, g refGen, prof Profile, op *Op, isNew, isEpic bool) {
 	if pct(t, 35, "f.body") || (op.Mode == "bodystdin" && !isNew) {
 		op.Body = sp(genBody(t, "body"))
 	}
+	if !isNew && op.Target != nil {
+		// now and then exactly the text the item already has: a request that changes nothing
+		// is still a request (it counts as the item's latest change)
+		if it := g.pre.Items[g.w.Resolve(*op.Target)]; it != nil {
+			if op.Title != nil && pct(t, 10, "f.title.same") {
+				op.Title = sp(it.Title)
+			}
+			if op.Body != nil && it.Body != "" && pct(t, 10, "f.body.same") {
+				op.Body = sp(it.Body)
+			}
+		}
+	}
 	if isEpic {
 		return
 	}
@@ -322,6 +334,18 @@ func genResult(t *rapid.T, g refGen, op *Op) {
 		path = "out/missing.txt"
 	case 5:
 		path = g.w.Root + "/" + name
+	}
+	if pct(t, 6, "res.cwd") {
+		// started somewhere below the root, naming a file that exists only relative to that
+		// directory: relative result paths are relative to the project root, so there is no
+		// such file
+		if pct(t, 50, "res.cwd.ergo") {
+			op.Cwd, path = ".ergo", "plans.jsonl"
+		} else {
+			only := fmt.Sprintf("only-here-%d.txt", between(t, 0, 3, "res.cwd.n"))
+			op.Files = append(op.Files, FileSpec{Path: "out/" + only, Content: "seen from out/ only"})
+			op.Cwd, path = "out", only
+		}
 	}
 	op.ResultPath = sp(path)
 	op.ResultSummary = sp(oneOf(t, []string{"done it", "  trimmed  ", "résumé ✓", "two\nlines", ""}, "res.summary"))
@@ -466,6 +490,12 @@ func genOp(t *rapid.T, w *World, pre *Snapshot, prof Profile) Op {
 		op.Target = &r
 		if !pct(t, 5, "claim.noagent") {
 			op.Agent = oneOf(t, agents, "agent")
+		}
+		if pct(t, 8, "claimid.epic") {
+			e := g.pick("epic", prof.BadRef, "claimid.epicref")
+			if !(e.Op < 0 && e.Lit == "") {
+				op.EpicFilter = &e
+			}
 		}
 	case "sequence":
 		n := between(t, 2, 4, "seq.n")
@@ -736,4 +766,35 @@ func genWaitCycleEdge(t *rapid.T, g refGen) []Ref {
 	}
 	f := found[uni(t, len(found), "waitcycle.pick")]
 	return []Ref{g.ref(f[0]), g.ref(f[1])}
+}
+
+// genWaitCycleMove searches for a task and an epic such that moving the task into the epic
+// is legal field-wise but closes a cycle in the waits-for relation.
+func genWaitCycleMove(t *rapid.T, g refGen) (task, epic *Ref) {
+	var found [][2]string
+	for _, a := range g.pre.SortedIDs() {
+		x := g.pre.Items[a]
+		if x.IsEpic {
+			continue
+		}
+		for _, e := range g.pre.SortedIDs() {
+			if !g.pre.Items[e].IsEpic || x.EpicID == e {
+				continue
+			}
+			exp := g.pre.Clone()
+			exp.Items[a].EpicID = e
+			if WaitCycle(exp) && !WaitCycle(g.pre) {
+				found = append(found, [2]string{a, e})
+			}
+		}
+		if len(found) >= 8 {
+			break
+		}
+	}
+	if len(found) == 0 {
+		return nil, nil
+	}
+	f := found[uni(t, len(found), "waitmove.pick")]
+	a, e := g.ref(f[0]), g.ref(f[1])
+	return &a, &e
 }
